@@ -26,5 +26,10 @@ DefOK == (mode = "rw" /\ Quiescent("full", g)) =>
            /\ Def(EqAnswer(g, TRUE), TRUE, S1, S2, TRUE)
            /\ Def(EqAnswer(g, FALSE), TRUE, S1, S2, FALSE)
 \* completeness on this family (not part of the property, reported as information): equal circuits are recognised
+\* the construction behind the `pairp` events of Trace_Eq:  X Rz(t) X Rz(t) = e^{i t} I  (checked here for the multiples of pi/4,
+\* an algebraic identity in t); evaluated once, in the initial state
+GadgetIsPhase == mode = "c1" /\ c1 = E0 =>
+                   \A k \in 0..7 : CircSem([n |-> 1, gates |-> <<G("NOT", <<0>>, 0), G("ZPhase", <<0>>, k), G("NOT", <<0>>, 0), G("ZPhase", <<0>>, k)>>])
+                                   = TScale(IdTensor(1), Omega(k))
 Complete == (mode = "rw" /\ Quiescent("full", g) /\ S1 = S2) => EqAnswer(g, FALSE) = "equal"
 =============================================================================
